@@ -16,9 +16,14 @@ PL3       == {<<>>, <<"p">>, <<"q">>}
 PL2       == {<<>>, <<"q">>}
 AllReqs   == {"p", ""}
 Times     == 0..6
-AllCrits  == SUBSET {"fc", "sa", "zz"}
-SomeCrits == {{}, {"fc"}, {"sa"}, {"zz"}}
-AllSupps  == {{}, {"fc"}}
+\* critical option names: "fc", "fd" can be configured as supported, "zz", "zy" never are, "sa" = source-address
+AllCrits  == SUBSET {"fc", "fd", "sa", "zz"} \cup {{"zz", "zy"}, {"fc", "zz", "zy"}}
+\* none / one option / mixes of supported and unsupported ones (two and three options)
+SomeCrits == {{}, {"fc"}, {"sa"}, {"zz"}, {"fc", "zz"}, {"fc", "fd"}, {"fc", "fd", "zz"}, {"sa", "zz"}, {"fc", "sa"}}
+MixCrits  == {{}, {"fc"}, {"zz"}, {"fc", "zz"}, {"fc", "fd", "zz"}}
+AllSupps  == {{}, {"fc"}, {"fc", "fd"}}
+FullCrits == SUBSET {"fc", "sa", "zz"}          \* crossed with every other field in the big products
+FullSupps == {{}, {"fc"}}
 AllRevs   == {"nil", "no", "yes"}
 AllSigs   == {"valid", "otherdata", "otherkey", "badformat", "flip"}
 SomeSigs  == {"valid", "otherdata", "otherkey"}
@@ -33,28 +38,31 @@ Menu(u, k, t, au, ad, pl, rq, a, b, cr, su, rv, sg, en) ==
 
 \* ---- exhaustive model checking
 \* every field, canonical encoding: the full product
-MFull  == Menu(AllUses, AllKinds, AllTypes, AllAuths, BOOLEAN, AllPLists, {"p"}, Times, Times, AllCrits, AllSupps, AllRevs, AllSigs, Canon)
+MFull  == Menu(AllUses, AllKinds, AllTypes, AllAuths, BOOLEAN, AllPLists, {"p"}, Times, Times, FullCrits, FullSupps, AllRevs, AllSigs, Canon)
 \* the empty requested principal against every list, on a reduced product of the other fields
-MFullE == Menu(AllUses, CertOnly, AllTypes, AllAuths, BOOLEAN, AllPLists, {""}, Times, Times, SomeCrits, AllSupps, {"nil", "yes"}, SomeSigs, Canon)
+MFullE == Menu(AllUses, CertOnly, AllTypes, AllAuths, BOOLEAN, AllPLists, {""}, Times, Times, {{}, {"fc"}, {"sa"}, {"zz"}}, FullSupps, {"nil", "yes"}, SomeSigs, Canon)
 \* encoding classes x (almost) everything
-MEnc   == Menu(AllUses, CertOnly, AllTypes, AllAuths, BOOLEAN, PL3, {"p"}, Times, Times, SomeCrits, AllSupps, AllRevs, SomeSigs, AllEncs)
+MEnc   == Menu(AllUses, CertOnly, AllTypes, AllAuths, BOOLEAN, PL3, {"p"}, Times, Times, {{}, {"fc"}, {"sa"}, {"zz"}}, FullSupps, AllRevs, SomeSigs, AllEncs)
 \* quick tier: the time grid x most fields; plain keys; encoding classes on a reduced product
-MQuickA == Menu(AllUses, CertOnly, AllTypes, AllAuths, BOOLEAN, PL2, {"p"}, Times, Times, {{}, {"fc"}, {"zz"}}, AllSupps, {"nil", "yes"}, Sig2, Canon)
+MQuickA == Menu(AllUses, CertOnly, AllTypes, AllAuths, BOOLEAN, PL2, {"p"}, Times, Times, {{}, {"fc", "zz"}}, {{}, {"fc"}}, {"nil", "yes"}, Sig2, Canon)
+\* the option-set dimension in full against the supported sets
+MQuickD == Menu(AllUses, CertOnly, UserHost, {"trusted"}, {TRUE}, PL2, {"p"}, {1, 3}, {3, 6}, AllCrits, AllSupps, {"nil", "yes"}, Sig2, Canon)
 MQuickB == Menu(AuthHost, AllKinds, AllTypes, AllAuths, BOOLEAN, PL2, {"p"}, {1, 3}, {3, 5, 6}, {{}, {"zz"}}, {{}}, {"nil", "yes"}, Sig2, Canon)
 MQuickC == Menu(AllUses, CertOnly, UserHost, {"trusted", "untrusted"}, {TRUE}, PL2, {"p"}, {1, 3}, {3, 5, 6}, {{}, {"zz"}}, {{}}, {"nil", "yes"}, Sig2, AllEncs)
-MenusFull  == {MFull, MFullE}
+MenusFull  == {MFull, MFullE, MQuickD}
 MenusEnc   == {MEnc}
-MenusQuick == {MQuickA, MQuickB, MQuickC}
+MenusQuick == {MQuickA, MQuickB, MQuickC, MQuickD}
 
 \* ---- generators (binding R)
 GTime    == Menu(AllUses, CertOnly, UserHost, {"trusted"}, {TRUE}, PL2, {"p"}, Times, Times, {{}}, {{}}, {"nil", "yes"}, Sig2, Canon)
-GFieldsQ == Menu(AllUses, CertOnly, AllTypes, AllAuths, BOOLEAN, SomePLists, {"p"}, {1}, {3}, SomeCrits, AllSupps, {"nil", "yes"}, SomeSigs, Canon)
-GFieldsT == Menu(AllUses, CertOnly, AllTypes, AllAuths, BOOLEAN, AllPLists, AllReqs, {1}, {3, 5}, AllCrits, AllSupps, AllRevs, AllSigs, Canon)
+GFieldsQ == Menu(AllUses, CertOnly, AllTypes, AllAuths, BOOLEAN, SomePLists, {"p"}, {1}, {3}, MixCrits, {{}, {"fc"}}, {"nil", "yes"}, SomeSigs, Canon)
+GCritQ   == Menu(AllUses, CertOnly, UserHost, {"trusted"}, {TRUE}, {<<>>}, {"p"}, {1}, {3, 6}, AllCrits, AllSupps, {"nil"}, {"valid"}, Canon)
+GFieldsT == Menu(AllUses, CertOnly, AllTypes, AllAuths, BOOLEAN, AllPLists, AllReqs, {1}, {3, 5}, FullCrits, FullSupps, AllRevs, AllSigs, Canon)
 GNonCert == Menu(AuthHost, PlainKinds, UserHost, {"trusted", "untrusted"}, BOOLEAN, {<<>>}, AllReqs, {1}, {3}, {{}}, {{}}, {"nil"}, {"valid"}, Canon)
 GEncQ    == Menu(AllUses, CertOnly, UserHost, {"trusted"}, {TRUE}, PL2, {"p"}, {1, 3}, {3, 5, 6}, {{}}, {{}}, {"nil"}, Sig2, AllEncs)
 GEncT    == Menu(AllUses, CertOnly, UserHost, {"trusted", "untrusted"}, {TRUE}, PL2, {"p"}, {1, 3}, {3, 5, 6}, {{}, {"zz"}}, {{}}, {"nil", "yes"}, SomeSigs, AllEncs)
-MenusGenQ == {GTime, GFieldsQ, GNonCert, GEncQ}
-MenusGenT == {GTime, GFieldsT, GNonCert, GEncT}
+MenusGenQ == {GTime, GFieldsQ, GCritQ, GNonCert, GEncQ}
+MenusGenT == {GTime, GFieldsT, GCritQ, GNonCert, GEncT}
 
 Emit == Done => PrintT("TRACE " \o ToJson([c |-> c, acc |-> res.acc, why |-> res.why, lit |-> Literal(c)]))
 =============================================================================
